@@ -10,7 +10,7 @@ use pvcore::refcodec::*;
 pub fn check(tier: Tier) -> Check {
     let parts = vec![Part::new(
         "C12/sweep",
-        json!({"max_payload": tier.pick(24, 48)}),
+        json!({"max_payload": tier.pick(48, 96)}),
         0,
         tier.pick(45, 600),
     )];
